@@ -1,8 +1,229 @@
 import RoaringModel.Driver.Core
-/-! Driver handlers: family `Treemap` (stub — replaced when the family's model exists) -/
+import RoaringModel.Driver.Ops32
+import RoaringModel.SpecCursor64
+import RoaringModel.Driver.TreemapAlg
+/-! Driver handlers: `RoaringTreemap` mutation/query (C10) and 64-bit iterators (C12) -/
 namespace Roaring.Driver
 open Roaring
 
-def opsTreemap : Handler := fun _ _ => none
+def parseTSlot (pfx : Char) (t : String) : Option Nat := (parseSlot pfx t).filter (· < 64)
+def parseNats64 := parseNatsMax 18446744073709551615
+
+def treemapWF (t : Treemap) : Bool :=
+  Arr.isStrictlySorted (t.map (·.1)) && t.all (fun p => p.1 < 4294967296 && bitmapWF p.2 && !p.2.isEmpty)
+
+def showParts (ps : List (Nat × Nat)) : String :=
+  if ps.isEmpty then "-" else ",".intercalate (ps.map fun p => s!"{p.1}:{p.2}")
+
+def showOptPart : Option (Nat × Nat) → String
+  | some p => s!"{p.1}:{p.2}"
+  | none => "none"
+
+def tdumpLine (sl : TSlot) : String :=
+  let wf := if treemapWF sl.m then "" else " !WF"
+  let els := Treemap.elems sl.m
+  let setPart := if els == sl.s then dumpSet els else specMark (dumpSet els) (dumpSet sl.s)
+  setPart ++ " | parts=[" ++ showParts (sl.m.map fun p => (p.1, Bitmap.len p.2)) ++ "]" ++ wf
+
+/-- `(key bK)…` arguments of `tfrom_bitmaps` -/
+def parseKeyed (st : DState) : List String → Option (List (Nat × Slot))
+  | [] => some []
+  | k :: b :: rest => do
+    let k ← parseU32 k
+    let i ← parseTSlot 'b' b
+    let sl ← st.getB i
+    let r ← parseKeyed st rest
+    pure ((k, sl) :: r)
+  | _ => none
+
+/-- `bitmaps()` consumed by a pattern of `f` (next) / `b` (next_back) calls -/
+def bitmapsMix : TIter.PIter → List Char → List (Option (Nat × Nat)) → Option (List (Option (Nat × Nat)))
+  | _, [], acc => some acc.reverse
+  | p, c :: cs, acc =>
+    if c = 'f' then let r := p.next; bitmapsMix r.1 cs (r.2.map (fun q => (q.1, Bitmap.len q.2)) :: acc)
+    else if c = 'b' then let r := p.nextBack; bitmapsMix r.1 cs (r.2.map (fun q => (q.1, Bitmap.len q.2)) :: acc)
+    else none
+
+def specMix : List (Nat × Nat) → List Char → List (Option (Nat × Nat)) → List (Option (Nat × Nat))
+  | _, [], acc => acc.reverse
+  | ps, c :: cs, acc =>
+    if c = 'f' then specMix ps.tail cs (ps.head? :: acc) else specMix ps.dropLast cs (ps.getLast? :: acc)
+
+def jNext : JIter → JIter × Option Nat
+  | .borrowed it => let r := it.next; (.borrowed r.1, r.2)
+  | .owned it => let r := it.next; (.owned r.1, r.2)
+def jNextBack : JIter → JIter × Option Nat
+  | .borrowed it => let r := it.nextBack; (.borrowed r.1, r.2)
+  | .owned it => let r := it.nextBack; (.owned r.1, r.2)
+
+/-- drain with repeated `next` / `next_back`: count and order-sensitive hash of what was yielded -/
+def jDrain (back : Bool) (fuel : Nat) (j : JIter) (n : Nat) (h : UInt64) : JIter × Nat × UInt64 :=
+  match fuel with
+  | 0 => (j, n, h)
+  | fuel + 1 =>
+    let r := if back then jNextBack j else jNext j
+    match r.2 with
+    | some v => jDrain back fuel r.1 (n + 1) (fnvStep h v)
+    | none => (r.1, n, h)
+
+def showHint (p : Nat × Option Nat) : String := s!"{p.1},{showOpt p.2}"
+
+def opsTreemapCore : Handler := fun st toks =>
+  let t? (t : String) := (parseTSlot 't' t).bind fun i => (st.getT i).map fun s => (i, s)
+  let j? (t : String) := (parseTSlot 'j' t).bind fun i => (st.getJ i).map fun s => (i, s)
+  match toks with
+  | ["tnew", d] => (parseTSlot 't' d).map fun i => (st.setT i ⟨[], []⟩, "ok")
+  | ["tclone", d, s] => do
+    let i ← parseTSlot 't' d; let (_, sl) ← t? s
+    pure (st.setT i sl, "ok")
+  | ["tinsert", d, v] => do
+    let (i, sl) ← t? d; let v ← parseU64 v
+    let r := Treemap.insert sl.m v; let q := Spec.insert sl.s v
+    pure (st.setT i ⟨r.1, q.1⟩, specMark (showBool r.2) (showBool q.2))
+  | ["tremove", d, v] => do
+    let (i, sl) ← t? d; let v ← parseU64 v
+    let r := Treemap.remove sl.m v; let q := Spec.remove sl.s v
+    pure (st.setT i ⟨r.1, q.1⟩, specMark (showBool r.2) (showBool q.2))
+  | ["tinsert_range", d, lo, hi] => do
+    let (i, sl) ← t? d; let lo ← parseBound64 lo; let hi ← parseBound64 hi
+    let r := Treemap.insertRange sl.m lo hi; let q := Spec.insertRange u64Max sl.s lo hi
+    pure (st.setT i ⟨r.1, q.1⟩, specMark (toString r.2) (toString q.2))
+  | ["tremove_range", d, lo, hi] => do
+    let (i, sl) ← t? d; let lo ← parseBound64 lo; let hi ← parseBound64 hi
+    let r := Treemap.removeRange sl.m lo hi; let q := Spec.removeRange u64Max sl.s lo hi
+    pure (st.setT i ⟨r.1, q.1⟩, specMark (toString r.2) (toString q.2))
+  | ["tpush", d, v] => do
+    let (i, sl) ← t? d; let v ← parseU64 v
+    let r := Treemap.push sl.m v; let q := Spec.push sl.s v
+    pure (st.setT i ⟨r.1, q.1⟩, specMark (showBool r.2) (showBool q.2))
+  | "tappend" :: d :: vs => do
+    let (i, sl) ← t? d; let vs ← parseNats64 vs
+    let q := Spec.append sl.s vs
+    match Treemap.append st.dbg sl.m vs with
+    | some r => pure (st.setT i ⟨r.1, q.1⟩, specMark (showAppend r.2) (showAppend q.2))
+    | none => pure (st, specMark "panic" (showAppend q.2))
+  | "tfrom_sorted" :: d :: vs => do
+    let i ← parseTSlot 't' d; let vs ← parseNats64 vs
+    let q := Spec.append [] vs
+    let qs := match q.2 with | .ok _ => "ok" | .error k => s!"err {k}"
+    match Treemap.append st.dbg [] vs with
+    | some (m, .ok _) => pure (st.setT i ⟨m, q.1⟩, specMark "ok" qs)
+    | some (_, .error k) => pure (st, specMark s!"err {k}" qs)
+    | none => pure (st, "panic")
+  | "textend" :: d :: vs => do
+    let (i, sl) ← t? d; let vs ← parseNats64 vs
+    pure (st.setT i ⟨Treemap.extend sl.m vs, Spec.extend sl.s vs⟩, "ok")
+  | "tfrom_iter" :: d :: vs => do
+    let i ← parseTSlot 't' d; let vs ← parseNats64 vs
+    pure (st.setT i ⟨Treemap.fromIter vs, Spec.extend [] vs⟩, "ok")
+  | ["tclear", d] => do
+    let (i, sl) ← t? d
+    pure (st.setT i ⟨Treemap.clear sl.m, []⟩, "ok")
+  | ["tcontains", d, v] => do
+    let (_, sl) ← t? d; let v ← parseU64 v
+    pure (st, specMark (showBool (Treemap.contains sl.m v)) (showBool (Spec.contains sl.s v)))
+  | ["tlen", d] => do
+    let (_, sl) ← t? d
+    pure (st, specMark (toString (Treemap.len sl.m)) (toString sl.s.length))
+  | ["tis_empty", d] => do
+    let (_, sl) ← t? d
+    pure (st, specMark (showBool (Treemap.isEmpty sl.m)) (showBool sl.s.isEmpty))
+  | ["tis_full", d] => do
+    let (_, sl) ← t? d
+    pure (st, specMark (showBool (Treemap.isFull sl.m)) (showBool (Spec.isFull u64Max sl.s)))
+  | ["tmin", d] => do
+    let (_, sl) ← t? d
+    pure (st, specMark (showOpt (Treemap.min? sl.m)) (showOpt (Spec.min? sl.s)))
+  | ["tmax", d] => do
+    let (_, sl) ← t? d
+    pure (st, specMark (showOpt (Treemap.max? sl.m)) (showOpt (Spec.max? sl.s)))
+  | ["trank", d, v] => do
+    let (_, sl) ← t? d; let v ← parseU64 v
+    pure (st, specMark (toString (Treemap.rank sl.m v)) (toString (Spec.rank sl.s v)))
+  | ["tselect", d, n] => do
+    let (_, sl) ← t? d; let n ← parseU64 n
+    match Treemap.select sl.m n with
+    | some r => pure (st, specMark (showOpt r) (showOpt (Spec.select sl.s n)))
+    | none => pure (st, specMark "panic" (showOpt (Spec.select sl.s n)))
+  | ["teq", a, b] => do
+    let (_, x) ← t? a; let (_, y) ← t? b
+    pure (st, specMark (showBool (Treemap.eq x.m y.m)) (showBool (x.s == y.s)))
+  | "tfrom_bitmaps" :: d :: items => do
+    let i ← parseTSlot 't' d; let items ← parseKeyed st items
+    let m := Treemap.fromBitmaps (items.map fun p => (p.1, p.2.m))
+    let s := Spec.fromBitmaps (items.map fun p => (p.1, p.2.s))
+    pure (st.setT i ⟨m, s⟩, "ok")
+  | ["tbitmaps", d] => do
+    let (_, sl) ← t? d
+    let r := bitmapsMix (TIter.PIter.new sl.m) (List.replicate (sl.m.length + 1) 'f') []
+    let ps := Spec.partitions sl.s
+    let q := specMix ps (List.replicate (ps.length + 1) 'f') []
+    pure (st, specMark (",".intercalate ((r.getD []).map showOptPart)) (",".intercalate (q.map showOptPart)))
+  | ["tbitmaps_rev", d] => do
+    let (_, sl) ← t? d
+    let r := bitmapsMix (TIter.PIter.new sl.m) (List.replicate (sl.m.length + 1) 'b') []
+    let ps := Spec.partitions sl.s
+    let q := specMix ps (List.replicate (ps.length + 1) 'b') []
+    pure (st, specMark (",".intercalate ((r.getD []).map showOptPart)) (",".intercalate (q.map showOptPart)))
+  | ["tbitmaps_mix", d, pat] => do
+    let (_, sl) ← t? d
+    let r ← bitmapsMix (TIter.PIter.new sl.m) pat.toList []
+    let q := specMix (Spec.partitions sl.s) pat.toList []
+    pure (st, specMark (showParts' r) (showParts' q))
+  | ["tdump", d] => do
+    let (_, sl) ← t? d
+    pure (st, tdumpLine sl)
+  -- 64-bit iterators
+  | ["titer", s, k] => do
+    let (_, sl) ← t? s; let k ← parseTSlot 'j' k
+    pure (st.setJ k ⟨.borrowed (TIter.Iter.new sl.m), sl.s⟩, "ok")
+  | ["tinto_iter", s, k] => do
+    let (_, sl) ← t? s; let k ← parseTSlot 'j' k
+    pure (st.setJ k ⟨.owned (TIter.IntoIter.new sl.m), sl.s⟩, "ok")
+  | ["jnext", k] => do
+    let (i, js) ← j? k
+    let r := jNext js.m; let q := Spec.Cursor64.next js.s
+    pure (st.setJ i ⟨r.1, q.1⟩, specMark (showOpt r.2) (showOpt q.2))
+  | ["jnext_back", k] => do
+    let (i, js) ← j? k
+    let r := jNextBack js.m; let q := Spec.Cursor64.nextBack js.s
+    pure (st.setJ i ⟨r.1, q.1⟩, specMark (showOpt r.2) (showOpt q.2))
+  | ["jadvance_to", k, v] => do
+    let (i, js) ← j? k; let v ← parseU64 v
+    match js.m with
+    | .borrowed it => pure (st.setJ i ⟨.borrowed (it.advanceTo v), Spec.Cursor64.advanceTo js.s v⟩, "ok")
+    | .owned _ => none
+  | ["jadvance_back_to", k, v] => do
+    let (i, js) ← j? k; let v ← parseU64 v
+    match js.m with
+    | .borrowed it => pure (st.setJ i ⟨.borrowed (it.advanceBackTo v), Spec.Cursor64.advanceBackTo js.s v⟩, "ok")
+    | .owned _ => none
+  | ["jsize_hint", k] => do
+    let (_, js) ← j? k
+    let n := Spec.Cursor64.sizeHint js.s
+    let m := match js.m with
+      | .borrowed it => (it.sizeHint, some it.sizeHint)
+      | .owned it => it.sizeHintPair
+    pure (st, specMark (showHint m) (showHint (n, some n)))
+  | ["jdrain_fwd", k] => do
+    let (i, js) ← j? k
+    let r := jDrain false (js.s.length + 1000) js.m 0 fnvBasis
+    let q := (js.s.length, js.s.foldl fnvStep fnvBasis)
+    pure (st.setJ i ⟨r.1, []⟩, specMark s!"n={r.2.1} h={hex64 r.2.2.toNat}" s!"n={q.1} h={hex64 q.2.toNat}")
+  | ["jdrain_rev", k] => do
+    let (i, js) ← j? k
+    let r := jDrain true (js.s.length + 1000) js.m 0 fnvBasis
+    let q := (js.s.length, js.s.reverse.foldl fnvStep fnvBasis)
+    pure (st.setJ i ⟨r.1, []⟩, specMark s!"n={r.2.1} h={hex64 r.2.2.toNat}" s!"n={q.1} h={hex64 q.2.toNat}")
+  | _ => none
+where
+  showParts' (l : List (Option (Nat × Nat))) : String :=
+    if l.isEmpty then "-" else ",".intercalate (l.map showOptPart)
+
+/-- family `treemap`: mutation/query + iterators (C10, C12), then algebra (C11) -/
+def opsTreemap : Handler := fun st toks =>
+  match opsTreemapCore st toks with
+  | some r => some r
+  | none => opsTreemapAlg st toks
 
 end Roaring.Driver
